@@ -1142,7 +1142,10 @@ class CursorClient(Client):
         construct = src_of(call)
         init = self.p.find_method(tgt, '__init__')
         own = list(init.params[1:]) if (init is not None and init.cls is tgt) else []
-        if len(call.args) != len(own) + 2:
+        starred = any(isinstance(a, ast.Starred) for a in call.args)
+        if starred and (len(call.args) < 2 or any(isinstance(a, ast.Starred) for a in call.args[-2:])):
+            return          # positional arguments spliced from a sequence: which ones are the span is not visible
+        if len(call.args) != len(own) + 2 and not starred:
             st = self.p.enclosing_stmt(f, call)
             var = st.targets[0].id if isinstance(st, ast.Assign) and isinstance(st.targets[0], ast.Name) else None
             stored = set()
